@@ -462,7 +462,24 @@ pub struct C05Case {
 }
 
 fn c05_strategy(tier: Tier) -> BoxedStrategy<C05Case> {
-    let g = ros_gen(tier);
+    c05_strategy_g(ros_gen(tier))
+}
+
+/// callbacks with non-increasing wcet::Multiframe costs (see c04_mf_strategy)
+fn c05_mf_strategy(tier: Tier) -> BoxedStrategy<C05Case> {
+    c05_strategy_g(RosGen { multiframe: true, ..ros_gen(tier) })
+        .prop_map(|mut c| {
+            for cb in c.wl.cbs.iter_mut() {
+                if let CostSpec::Multiframe { costs } = &mut cb.cost {
+                    costs.sort_unstable_by(|a, b| b.cmp(a));
+                }
+            }
+            c
+        })
+        .boxed()
+}
+
+fn c05_strategy_g(g: RosGen) -> BoxedStrategy<C05Case> {
     (workload_strategy(g, 200, 850), any::<bool>())
         .prop_flat_map(|(wl, use_bw)| {
             let n = wl.cbs.len();
@@ -531,6 +548,16 @@ fn check_c05(c: &C05Case) -> CheckResult {
     let cbs = &c.wl.cbs;
     let n = cbs.len();
     let prios = ranks(cbs);
+    for cb in cbs {
+        match &cb.cost {
+            CostSpec::Scalar { .. } => {}
+            CostSpec::Multiframe { costs } if !costs.is_empty() && costs.windows(2).all(|w| w[0] >= w[1]) && *costs.last().unwrap() >= 1 => {}
+            _ => {
+                out.label("cost-model-not-simulated(skipped)");
+                return Ok(out);
+            }
+        }
+    }
     let bounds = match self_consistent_bounds(&c.wl, &prios, c.use_bw, LIMIT) {
         Err(_) => {
             out.label("analysis-panicked(skipped)");
@@ -543,7 +570,7 @@ fn check_c05(c: &C05Case) -> CheckResult {
         Ok(Some(b)) => b,
     };
     let kinds: Vec<CbKind> = cbs.iter().map(|c| c.kind).collect();
-    let costs: Vec<u64> = cbs.iter().map(|c| scalar(&c.cost)).collect();
+    let costs: Vec<u64> = cbs.iter().map(|c| c.cost.wcet()).collect();
     let next = vec![None; n];
     let maxr = *bounds.iter().max().unwrap();
     let maxscale = cbs.iter().map(|c| c.arr.scale().min(200)).max().unwrap_or(1);
@@ -593,18 +620,23 @@ fn check_c05(c: &C05Case) -> CheckResult {
     out.label_if(!c.use_bw, "rr");
     out.label_if(cbs.iter().any(|c| c.kind == CbKind::Polled && c.declared == Declared::Unknown), "unknown-prio");
     out.label_if(!c.wl.supply.is_dedicated(), "reservation");
+    let varied = cbs.iter().any(|cb| matches!(&cb.cost, CostSpec::Multiframe { costs } if costs.iter().any(|x| *x != costs[0])));
+    out.label_if(varied, "varied-frame-costs");
+    if cbs.iter().any(|cb| !cb.cost.is_scalar()) {
+        out.nontrivial = out.nontrivial && varied;
+    }
     Ok(out)
 }
 
 pub fn def_c05() -> PropertyDef {
     PropertyDef {
         id: "C05",
-        rule: "generated: workloads of 1-4 callbacks mixing timers, Polled(prio) and PolledUnknownPrio (the declared kind is generated independently of the simulator's true priority order), scalar costs, arrival specs as C01, supply as C04, utilisation steered to 0.2-0.85 of the bandwidth; analysis rr or bw. The self-consistent bound vector is obtained as the property prescribes: start at the WCETs, re-run the singleton-subchain analysis for every callback with the current vector, repeat until nothing changes (divergent / Err vectors are counted and skipped). Per case the canonical scenario, 4 targeted scenarios per callback, the pair scenarios (two callbacks missing consecutive polling points: carried-in and fresh instances of one meet ahead of the other) and 4-7 generated scenarios (as C04). Oracle: executor + reservation simulator; every instance of every callback must respond within its bound. Non-trivial: converged, >= 2 callbacks of which >= 1 polled, and some polled instance waited through >= 2 polling points. Distinct by case JSON.".into(),
+        rule: "generated: workloads of 1-4 callbacks mixing timers, Polled(prio) and PolledUnknownPrio (the declared kind is generated independently of the simulator's true priority order), scalar costs, arrival specs as C01, supply as C04, utilisation steered to 0.2-0.85 of the bandwidth; analysis rr or bw. The self-consistent bound vector is obtained as the property prescribes: start at the WCETs, re-run the singleton-subchain analysis for every callback with the current vector, repeat until nothing changes (divergent / Err vectors are counted and skipped). Per case the canonical scenario, 4 targeted scenarios per callback, the pair scenarios (two callbacks missing consecutive polling points: carried-in and fresh instances of one meet ahead of the other) and 4-7 generated scenarios (as C04). Sub-check multiframe-costs: the same with non-increasing wcet::Multiframe callback costs (instance k costs at most frame k mod len; non-trivial there additionally requires two different frame costs). Oracle: executor + reservation simulator; every instance of every callback must respond within its bound. Non-trivial: converged, >= 2 callbacks of which >= 1 polled, and some polled instance waited through >= 2 polling points. Distinct by case JSON.".into(),
         assumptions: vec![
-            "executor model of ros.rs; scalar execution-time bounds; all callbacks externally triggered (singleton subchains, as in the property)".into(),
+            "executor model of ros.rs; scalar execution-time bounds (multiframe-costs sub-check: per-instance bounds taken cyclically from the frame vector); all callbacks externally triggered (singleton subchains, as in the property)".into(),
             "a reservation delivers exactly its budget in every period, anywhere within the first D slots".into(),
         ],
-        subchecks: vec![subcheck("executor", (1200, 40_000), c05_strategy, check_c05)],
+        subchecks: vec![subcheck("executor", (1200, 40_000), c05_strategy, check_c05), subcheck("multiframe-costs", (1000, 30_000), c05_mf_strategy, check_c05)],
         extra: None,
     }
 }
